@@ -1205,8 +1205,8 @@ func fetchPeerAuthentications(
 	// Policies in the workload's own namespace apply if they have no selector or their selector matches.
 	auths := peerAuthsByNs.Fetch(ctx, ns, krt.FilterGeneric(func(a any) bool {
 		sel := a.(*securityclient.PeerAuthentication).Spec.Selector
-		if sel == nil {
-			return true // No selector matches everything
+		if len(sel.GetMatchLabels()) == 0 {
+			return true // No selector (or one without labels) matches everything
 		}
 		return labels.Instance(sel.MatchLabels).SubsetOf(matchLabels)
 	}))
@@ -1214,7 +1214,8 @@ func fetchPeerAuthentications(
 	// itself in the root namespace, these are already covered by the fetch above.
 	if rootNamespace := meshCfg.GetRootNamespace(); ns != rootNamespace {
 		rootAuths := peerAuthsByNs.Fetch(ctx, rootNamespace, krt.FilterGeneric(func(a any) bool {
-			return a.(*securityclient.PeerAuthentication).Spec.Selector == nil
+			// a selector without labels is no selector (same as the sidecar path and validation)
+			return len(a.(*securityclient.PeerAuthentication).Spec.Selector.GetMatchLabels()) == 0
 		}))
 		auths = append(auths, rootAuths...)
 	}
